@@ -414,6 +414,15 @@ type c08Case struct {
 	// choose (1..31), 0 when irrelevant.
 	Pad int `json:"pad"`
 
+	// Behave is empty for a handler that writes the scripted response (parts
+	// normalize and write).  In part server-made it says why the server has
+	// to make up a response itself: "silent" (the handler returns nil without
+	// writing), "error" (the handler returns an error without writing), "qr"
+	// (the query has the QR bit set and is ignored), "notimp" (opcode the
+	// server rejects with NOTIMP), "formerr" (two questions, rejected with
+	// FORMERR).
+	Behave string `json:"behave,omitempty"`
+
 	// Names only for readers of replay files.
 	ShapeName string `json:"shape_name"`
 	EDNSName  string `json:"edns_name"`
@@ -517,14 +526,23 @@ func c08Oracle(
 	obs c08Obs,
 ) (fs []vrt.Finding) {
 	what := fmt.Sprintf("%s shape=%s handler-size=%d edns=%s cfg=%d pad=%d", c.Path, c.ShapeName, hsize, e.Name, c.Cfg, c.Pad)
+	cls := t.Name
+	// optSfx gives the OPT clauses a signature of their own, per transport,
+	// for the responses the server makes up itself.
+	optSfx := ""
+	if c.Behave != "" {
+		what = fmt.Sprintf("%s server-made response (%s) edns=%s cfg=%d pad=%d", c.Path, c.Behave, e.Name, c.Cfg, c.Pad)
+		cls = t.Name + " " + c.Behave
+		optSfx = ":server-made:" + t.Name
+	}
 	if obs.Panicked != "" {
 		r.Count("hint:panic-recovered", 1)
 	}
 	if !obs.Sent {
 		// The statement bounds what is sent; it does not demand that
 		// something is.
-		r.Class(t.Name + " nothing-sent:" + obs.Why)
-		r.State(t.Name + "|" + e.Name + "|nothing|" + obs.Why)
+		r.Class(cls + " nothing-sent:" + obs.Why)
+		r.State(cls + "|" + e.Name + "|nothing|" + obs.Why)
 
 		return nil
 	}
@@ -562,12 +580,12 @@ func c08Oracle(
 	if err := out.Unpack(obs.Wire); err != nil {
 		if n > dns.MaxMsgSize {
 			// Already reported by the size clause; nothing else to decode.
-			r.Class(t.Name + " oversized-undecodable")
+			r.Class(cls + " oversized-undecodable")
 
 			return fs
 		}
 		fs = append(fs, vrt.F(t.Name+"/undecodable", "%s: %d bytes sent do not unpack: %v", what, n, err)...)
-		r.Class(t.Name + " undecodable")
+		r.Class(cls + " undecodable")
 
 		return fs
 	}
@@ -598,16 +616,16 @@ func c08Oracle(
 	if e.Present {
 		switch {
 		case len(opts) == 0:
-			fs = append(fs, vrt.F("opt/missing", "%s: query carried OPT, response has none", what)...)
+			fs = append(fs, vrt.F("opt/missing"+optSfx, "%s: query carried OPT, response has none", what)...)
 		case len(opts) > 1:
-			fs = append(fs, vrt.F("opt/duplicated", "%s: response carries %d OPT records", what, len(opts))...)
+			fs = append(fs, vrt.F("opt/duplicated"+optSfx, "%s: response carries %d OPT records", what, len(opts))...)
 		default:
 			if opt.UDPSize() != e.UDPSize {
-				fs = append(fs, vrt.F("opt/udp-size-not-echoed",
+				fs = append(fs, vrt.F("opt/udp-size-not-echoed"+optSfx,
 					"%s: client's UDP size %d, response OPT says %d (handler response had OPT: %v)", what, e.UDPSize, opt.UDPSize(), h.IsEdns0() != nil)...)
 			}
 			if opt.Version() != 0 {
-				fs = append(fs, vrt.F("opt/version-not-zero", "%s: response OPT version %d", what, opt.Version())...)
+				fs = append(fs, vrt.F("opt/version-not-zero"+optSfx, "%s: response OPT version %d", what, opt.Version())...)
 			}
 			if opt.Do() != e.DO {
 				// Not demanded by the statement.
@@ -672,8 +690,8 @@ func c08Oracle(
 			optc += "+ka"
 		}
 	}
-	r.Class(t.Name + " " + outcome + " " + optc)
-	r.State(fmt.Sprintf("%s|%s|%d|%d|%v|%d/%d/%d|%s", t.Name, e.Name, c.Cfg, n, out.Truncated,
+	r.Class(cls + " " + outcome + " " + optc)
+	r.State(fmt.Sprintf("%s|%s|%d|%d|%v|%d/%d/%d|%s", cls, e.Name, c.Cfg, n, out.Truncated,
 		len(out.Answer), len(out.Ns), len(out.Extra), vdns.OPTString(out)))
 
 	return fs
@@ -888,8 +906,83 @@ func TestVerifC08(t *testing.T) {
 		return c08Oracle(r, p.c08Transport, c, e, h, b.size, obs)
 	})
 
+	// Part 3: responses the server makes up itself, because the handler gave
+	// up without writing, failed, or the server rejected or ignored the query.
+	// The same clauses apply to whatever is sent then; sending nothing is fine.
+	vrt.Part(r, "server-made", func(emit func(c08Case)) {
+		for _, behave := range c08Behaviours {
+			for edns, e := range c08EDNSSet {
+				for _, p := range c08Paths {
+					if !c08BehaviourReachable(p.Name, behave) {
+						continue
+					}
+					for _, cfg := range cfgsFor(p.c08Transport, 0) {
+						for _, pad := range pads(p.c08Transport, e, 0) {
+							c := mkCase(p.Name, 0, 0, edns, cfg, pad)
+							c.Behave, c.ShapeName = behave, "-"
+							emit(c)
+						}
+					}
+				}
+			}
+		}
+	}, func(c c08Case) []vrt.Finding {
+		p, ok := c08PathByName[c.Path]
+		if !ok {
+			vrt.Fatalf("c08: unknown path %q", c.Path)
+		}
+		e := c08EDNSSet[c.EDNS]
+		req := c08NewReq(e)
+		mode := "write"
+		switch c.Behave {
+		case "silent", "error":
+			mode = c.Behave
+		case "qr":
+			req.Response = true
+		case "notimp":
+			req.Opcode = dns.OpcodeStatus
+		case "formerr":
+			req.Question = append(req.Question, dns.Question{Name: "other.example.org.", Qtype: dns.TypeA, Qclass: dns.ClassINET})
+		default:
+			vrt.Fatalf("c08: unknown behaviour %q", c.Behave)
+		}
+		reqBytes, err := req.Pack()
+		if err != nil {
+			vrt.Fatalf("c08: packing request: %v", err)
+		}
+		// What the handler would have written is an empty reply: nothing can
+		// be "dropped" from it.
+		h := &dns.Msg{}
+		h.SetReply(c08NewReq(e))
+		rig.handler.resp = c08Clone(h)
+		rig.handler.mode = mode
+		defer func() { rig.handler.mode = "write" }()
+		rig.metrics.panicked = ""
+		c08SeedRand(c.Pad)
+		obs := p.run(rig, c, reqBytes)
+		obs.Panicked = rig.metrics.panicked
+		r.Trans(1)
+
+		return c08Oracle(r, p.c08Transport, c, e, h, 0, obs)
+	})
+
 	r.Finish()
 	os.Exit(0)
+}
+
+// c08Behaviours are the situations of part server-made.
+var c08Behaviours = []string{"silent", "error", "qr", "notimp", "formerr"}
+
+// c08BehaviourReachable reports whether a behaviour can be reached on a path.
+// The DNSCrypt library itself refuses messages with the QR bit or with other
+// than one question before it calls the repository's handler, so these never
+// reach dnsCryptHandler.ServeDNS.
+func c08BehaviourReachable(path, behave string) bool {
+	if path == "dnscrypt-udp" || path == "dnscrypt-tcp" {
+		return behave != "qr" && behave != "formerr"
+	}
+
+	return true
 }
 
 // c08Clone returns a copy of m that the code under test may modify: fresh
